@@ -279,12 +279,26 @@ func (fs Facts) killWhere(pred func(key string) bool) Facts {
 	return out
 }
 
-// trackable: an identifier or a selector chain on identifiers.
-func trackKey(e ast.Expr) string {
+// Key returns the fact key of a trackable expression: an identifier (local
+// variables are disambiguated by their declaration line, so shadowing does not
+// confuse facts), a selector chain, a pure getter call or a constant index.
+func (fl *Flow) Key(e ast.Expr) string { return fl.trackKey(e) }
+
+func (fl *Flow) trackKey(e ast.Expr) string {
+	trackKey := fl.trackKey
 	switch x := e.(type) {
 	case *ast.Ident:
 		if x.Name == "_" || x.Name == "nil" || x.Name == "true" || x.Name == "false" {
 			return ""
+		}
+		var obj types.Object
+		if o, ok := fl.Pkg.Info.Uses[x]; ok {
+			obj = o
+		} else if o, ok := fl.Pkg.Info.Defs[x]; ok {
+			obj = o
+		}
+		if v, ok := obj.(*types.Var); ok && !v.IsField() && v.Pkg() != nil && v.Parent() != v.Pkg().Scope() {
+			return fmt.Sprintf("%s@%d", x.Name, fl.P.Fset.Position(v.Pos()).Line)
 		}
 		return x.Name
 	case *ast.SelectorExpr:
@@ -320,7 +334,9 @@ func trackKey(e ast.Expr) string {
 		case *ast.BasicLit:
 			return k + "[" + ix.Value + "]"
 		case *ast.Ident:
-			return k + "[" + ix.Name + "]"
+			if ik := trackKey(ix); ik != "" {
+				return k + "[" + ik + "]"
+			}
 		}
 		return ""
 	}
@@ -378,43 +394,67 @@ func constName(c *types.Const) string {
 	return c.Name()
 }
 
-// atoms returns the facts implied by cond evaluating to outcome.
-func (fl *Flow) atoms(cond ast.Expr, outcome bool) []fact {
+// alts returns, in disjunctive normal form, the facts implied by cond
+// evaluating to outcome: each element is one alternative conjunction.  An
+// unknown condition yields one alternative with no facts.
+func (fl *Flow) alts(cond ast.Expr, outcome bool) [][]fact {
 	cond = ast.Unparen(cond)
+	cross := func(a, b [][]fact) [][]fact {
+		var out [][]fact
+		for _, x := range a {
+			for _, y := range b {
+				out = append(out, append(append([]fact{}, x...), y...))
+			}
+		}
+		if len(out) > 16 {
+			return [][]fact{{}}
+		}
+		return out
+	}
 	switch c := cond.(type) {
 	case *ast.UnaryExpr:
 		if c.Op == token.NOT {
-			return fl.atoms(c.X, !outcome)
+			return fl.alts(c.X, !outcome)
 		}
 	case *ast.BinaryExpr:
 		switch c.Op {
 		case token.LAND:
 			if outcome {
-				return append(fl.atoms(c.X, true), fl.atoms(c.Y, true)...)
+				return cross(fl.alts(c.X, true), fl.alts(c.Y, true))
 			}
-			return nil
+			return append(fl.alts(c.X, false), cross(fl.alts(c.X, true), fl.alts(c.Y, false))...)
 		case token.LOR:
 			if !outcome {
-				return append(fl.atoms(c.X, false), fl.atoms(c.Y, false)...)
+				return cross(fl.alts(c.X, false), fl.alts(c.Y, false))
 			}
-			return nil
+			return append(fl.alts(c.X, true), cross(fl.alts(c.X, false), fl.alts(c.Y, true))...)
 		case token.EQL, token.NEQ:
 			eq := (c.Op == token.EQL) == outcome
-			if k, v := trackKey(c.X), fl.atomVal(c.Y); k != "" && v != "" && fl.atomVal(c.X) == "" {
-				return []fact{{k, eq, v}}
+			if k, v := fl.trackKey(c.X), fl.atomVal(c.Y); k != "" && v != "" && fl.atomVal(c.X) == "" {
+				return [][]fact{{{k, eq, v}}}
 			}
-			if k, v := trackKey(c.Y), fl.atomVal(c.X); k != "" && v != "" && fl.atomVal(c.Y) == "" {
-				return []fact{{k, eq, v}}
+			if k, v := fl.trackKey(c.Y), fl.atomVal(c.X); k != "" && v != "" && fl.atomVal(c.Y) == "" {
+				return [][]fact{{{k, eq, v}}}
 			}
 		}
 	case *ast.Ident:
-		if k := trackKey(c); k != "" {
-			return []fact{{k, true, fmt.Sprint(outcome)}}
+		if k := fl.trackKey(c); k != "" {
+			return [][]fact{{{k, true, fmt.Sprint(outcome)}}}
 		}
 	case *ast.SelectorExpr, *ast.CallExpr:
-		if k := trackKey(c); k != "" {
-			return []fact{{k, true, fmt.Sprint(outcome)}}
+		if k := fl.trackKey(c); k != "" {
+			return [][]fact{{{k, true, fmt.Sprint(outcome)}}}
 		}
+	}
+	return [][]fact{{}}
+}
+
+// atoms returns the facts that certainly hold when cond evaluates to outcome
+// (the facts common to a single-alternative DNF; nil otherwise).
+func (fl *Flow) atoms(cond ast.Expr, outcome bool) []fact {
+	a := fl.alts(cond, outcome)
+	if len(a) == 1 {
+		return a[0]
 	}
 	return nil
 }
@@ -632,8 +672,8 @@ func (fl *Flow) Walk(start Loc, x0 string, f0 Facts, v Visitor) {
 		}
 		cond := fl.edgeCond(b)
 		for si, succ := range b.Succs {
-			nf := facts
 			tr := it.tr
+			altFacts := []Facts{facts}
 			if len(b.Succs) == 2 {
 				note := ""
 				var pos token.Pos
@@ -642,21 +682,30 @@ func (fl *Flow) Walk(start Loc, x0 string, f0 Facts, v Visitor) {
 					pos = cond.Pos()
 					note = fmt.Sprintf("[%s]=%v", expr(cond), outcome)
 					if !v.NoFacts {
-						ok := true
-						for _, a := range fl.atoms(cond, outcome) {
-							nf, ok = nf.add(a)
-							if !ok {
-								break
-							}
-						}
-						if !ok {
-							continue // infeasible edge
-						}
 						// constant conditions
 						if tv, has := info.Types[cond]; has && tv.Value != nil {
 							if (tv.Value.ExactString() == "true") != outcome {
 								continue
 							}
+						}
+						altFacts = nil
+						seenAlt := map[string]bool{}
+						for _, alt := range fl.alts(cond, outcome) {
+							nf := facts
+							ok := true
+							for _, a := range alt {
+								nf, ok = nf.add(a)
+								if !ok {
+									break
+								}
+							}
+							if ok && !seenAlt[nf.String()] {
+								seenAlt[nf.String()] = true
+								altFacts = append(altFacts, nf)
+							}
+						}
+						if len(altFacts) == 0 {
+							continue // infeasible edge
 						}
 					}
 				} else if succ.Stmt != nil {
@@ -667,24 +716,29 @@ func (fl *Flow) Walk(start Loc, x0 string, f0 Facts, v Visitor) {
 					tr = &trail{prev: it.tr, pos: pos, note: note}
 				}
 			}
-			if rs, ok := succ.Stmt.(*ast.RangeStmt); ok && succ.Kind == cfg.KindRangeBody && !v.NoFacts {
-				for _, e := range []ast.Expr{rs.Key, rs.Value} {
-					if k := trackKey(e); k != "" {
-						nf = nf.kill(k)
-						nf = nf.killWhere(func(key string) bool { return strings.Contains(key, "["+k+"]") })
+			for _, nf := range altFacts {
+				if rs, ok := succ.Stmt.(*ast.RangeStmt); ok && succ.Kind == cfg.KindRangeBody && !v.NoFacts {
+					for _, e := range []ast.Expr{rs.Key, rs.Value} {
+						if e == nil {
+							continue
+						}
+						if k := fl.trackKey(e); k != "" {
+							nf = nf.kill(k)
+							nf = nf.killWhere(func(key string) bool { return strings.Contains(key, "["+k+"]") })
+						}
 					}
 				}
-			}
-			nx := x
-			if v.Enter != nil {
-				st := &Step{Fl: fl, Block: succ, Facts: nf, trail: tr}
-				var stop bool
-				nx, stop = v.Enter(b, succ, x, st)
-				if stop {
-					continue
+				nx := x
+				if v.Enter != nil {
+					st := &Step{Fl: fl, Block: succ, Facts: nf, trail: tr}
+					var stop bool
+					nx, stop = v.Enter(b, succ, x, st)
+					if stop {
+						continue
+					}
 				}
+				stack = append(stack, item{Loc{succ, 0}, nx, nf, tr})
 			}
-			stack = append(stack, item{Loc{succ, 0}, nx, nf, tr})
 		}
 	}
 }
@@ -695,7 +749,7 @@ func (fl *Flow) transfer(n ast.Node, facts Facts) Facts {
 		return facts
 	}
 	killName := func(e ast.Expr) {
-		if k := trackKey(e); k != "" {
+		if k := fl.trackKey(e); k != "" {
 			facts = facts.kill(k)
 			// any fact mentioning k as an index also dies
 			facts = facts.killWhere(func(key string) bool { return strings.Contains(key, "["+k+"]") })
@@ -737,6 +791,9 @@ func (fl *Flow) transfer(n ast.Node, facts Facts) Facts {
 			if strings.ContainsAny(key, ".([") {
 				// a getter or field of a stable local: calls may change it
 				return true
+			}
+			if i := strings.Index(key, "@"); i > 0 {
+				key = key[:i]
 			}
 			return fl.unstable[key]
 		})
@@ -805,3 +862,7 @@ func (fl *Flow) Dominated(target Loc, event func(n ast.Node, s *Step) bool) (boo
 	})
 	return ok, wit
 }
+
+type cfg2Block = cfg.Block
+
+func cond2(e ast.Expr) ast.Expr { return e }
